@@ -411,25 +411,3 @@ theorem run_distinct {st st' : KState} (ops : List KOp) (hd : DistinctOk st) (h 
     | ok st1 => simp only [hs] at h; exact ih (step_distinct hd hs) h
 
 end Darsia.Kern
-
-namespace Darsia.Kern
-
-theorem stepS_inv {st : KState} (op : KOp) (hi : Inv st) : Inv (stepS st op).1 := by
-  unfold stepS
-  cases h : step st op with
-  | ok st' => exact step_inv hi h
-  | error e => exact hi
-
-theorem stepS_distinct {st : KState} (op : KOp) (hd : DistinctOk st) : DistinctOk (stepS st op).1 := by
-  unfold stepS
-  cases h : step st op with
-  | ok st' => exact step_distinct hd h
-  | error e => exact hd
-
-theorem runS_inv (ops : List KOp) : ∀ (st : KState) (i : Nat), Inv st → DistinctOk st →
-    Inv (runS st ops i).1 ∧ DistinctOk (runS st ops i).1 := by
-  induction ops with
-  | nil => intro st i hi hd; exact ⟨hi, hd⟩
-  | cons op ops ih => intro st i hi hd; exact ih _ (i + 1) (stepS_inv op hi) (stepS_distinct op hd)
-
-end Darsia.Kern
